@@ -49,7 +49,8 @@ impl Part for C08 {
             for (kdf, aead) in combos {
                 for mode in [Mode::Auth, Mode::AuthPsk, Mode::Psk] {
                     for ks in 0..(if t { 4 } else { 2 }) {
-                        let lens: Vec<usize> = if !mode.has_psk() { vec![32] } else if t { vec![32, 64, 300] } else { vec![32, 300] };
+                        // 0 = the (legal) empty bundle; 33 = a PSK and id that END IN ASCII WHITESPACE (value class, see run)
+                        let lens: Vec<usize> = if !mode.has_psk() { vec![32] } else if t { vec![32, 64, 300, 0, 33] } else if ks == 0 { vec![32, 300, 0, 33] } else { vec![32, 300] };
                         for psk_len in lens {
                             v.push(Case { suite: SuiteId { kem, kdf, aead }, mode, psk_len, tag: 8000 + ks });
                         }
@@ -76,8 +77,13 @@ impl Part for C08 {
         let k = k;
         let evil = keys(c.suite.kem, c.tag + 555, cfg.seed);
         let info = bytes(Fill::Mix, 20, 10, cfg.seed);
-        let psk = bytes(Fill::Mix, c.psk_len, 11, cfg.seed);
-        let psk_id = bytes(Fill::Mix, 22, 12, cfg.seed);
+        let mut psk = bytes(Fill::Mix, c.psk_len, 11, cfg.seed);
+        let mut psk_id = if c.psk_len == 0 { vec![] } else { bytes(Fill::Mix, 22, 12, cfg.seed) };
+        if c.psk_len == 33 {
+            psk[32] = b'\n';
+            psk_id[21] = b' ';
+        }
+        let (psk, psk_id) = (psk, psk_id);
         // the receiver's view
         let m_r = mode_spec(c.mode, &k, &psk, &psk_id);
         // honest sender: positive control
@@ -145,7 +151,35 @@ impl Part for C08 {
             }
             impostor(&mut out, format!("honest identity but mode {:?}", oa), m);
         }
-        if c.mode.has_psk() {
+        if c.mode.has_psk() && psk.is_empty() {
+            // receiver with the empty bundle: senders holding SOME psk, and (AuthPsk) the non-authenticated modes
+            let mut m = m_r.clone();
+            m.psk = evil.ikm_e.clone();
+            m.psk_id = b"id".to_vec();
+            impostor(&mut out, "a non-empty bundle against a receiver with the empty bundle".into(), m);
+            if c.mode == Mode::AuthPsk {
+                for na in [Mode::Base, Mode::Psk] {
+                    let mut m = m_r.clone();
+                    m.kind = na.id();
+                    m.sk_s = vec![];
+                    m.pk_s = vec![];
+                    impostor(&mut out, format!("non-authenticated mode {:?} against an AuthPsk receiver with the empty bundle", na), m);
+                }
+            }
+        }
+        if c.mode.has_psk() && c.psk_len == 33 {
+            for (what, p2) in [("last byte another whitespace", { let mut p = psk.clone(); p[32] = b' '; p }), ("without its trailing whitespace", psk[..32].to_vec()), ("with a second trailing whitespace", [&psk[..], b"\n"].concat()), ("last byte NUL", { let mut p = psk.clone(); p[32] = 0; p })] {
+                let mut m = m_r.clone();
+                m.psk = p2;
+                impostor(&mut out, format!("psk {}", what), m);
+            }
+            for (what, i2) in [("last byte another whitespace", { let mut p = psk_id.clone(); p[21] = b'\t'; p }), ("without its trailing whitespace", psk_id[..21].to_vec())] {
+                let mut m = m_r.clone();
+                m.psk_id = i2;
+                impostor(&mut out, format!("psk_id {}", what), m);
+            }
+        }
+        if c.mode.has_psk() && !psk.is_empty() {
             let stride = if matches!(c.suite.kem, Kem::P384 | Kem::P521) || c.psk_len > 64 { 7 } else { 1 };
             let n = psk.len() * 8;
             let mut bits: Vec<usize> = (0..n).step_by(stride).collect();
